@@ -36,6 +36,7 @@ def main():
         return
     opts = dict(getattr(mod, "OPTS", {}).get(a.tier, {}))
     opts["tier"] = a.tier
+    opts["subset"] = bool(a.only or a.limit)
     sys.exit(runner.run_property(prop, scen, opts, mod.META))
 
 
